@@ -34,7 +34,7 @@ DT = {"c128": np.complex128, "c64": np.complex64, "f64": np.float64, "f32": np.f
 
 def bounds(tier):
     return {"shapes": "1-3 dims over lengths 1..5, <= %d elements; 4 dims: <= %d elements%s" % (24 if tier == "quick" else 60, 16 if tier == "quick" else 24, "" if tier == "quick" else ", lengths <= 3"),
-            "axes": "every subset of range(-ndim, ndim) without duplicates mod ndim, and None",
+            "axes": "every subset of range(-ndim, ndim) without duplicates mod ndim, None, and the empty selection (identity)",
             "center": [True, False], "norm": ["ortho", None],
             "oshape": "centred only: 1-D n in 1..5 -> m in 1..7; 2-D/3-D: every per-axis choice from {n-1, n, n+1, n+2}",
             "dtypes": list(DT)}
@@ -49,7 +49,7 @@ def gen_cases(tier, seed):
             continue
         if len(s) == 4 and T and max(s) > 3:
             continue
-        for ax in space.axes_subsets(len(s)):
+        for ax in space.axes_subsets(len(s), nonempty=False):
             if len(s) == 4 and ax is not None and not T and len(ax) in (2, 3) and any(a < 0 for a in ax) and any(a >= 0 for a in ax):
                 continue  # quick: mixed-sign subsets of 4-D only in thorough
             for cen in (True, False):
@@ -72,7 +72,7 @@ def gen_cases(tier, seed):
         for osh in itertools.product(*[sorted({max(1, n - 1), n, n + 1, n + 2}) for n in s]):
             if list(osh) == list(s):
                 continue
-            for ax in space.axes_subsets(len(s)):
+            for ax in space.axes_subsets(len(s), nonempty=False):
                 if not T and ax is not None and len(s) == 3 and len(ax) == 2:
                     continue
                 for norm in ("ortho", None):
@@ -80,7 +80,7 @@ def gen_cases(tier, seed):
                                       center=True, norm=norm, oshape=list(osh), dtype="c128"))
     # Linops
     for s in space.shapes((1, 2, 3), (1, 2, 3, 4, 5), 24):
-        for ax in space.axes_subsets(len(s)):
+        for ax in space.axes_subsets(len(s), nonempty=False):
             for cen in (True, False):
                 cases.append(dict(kind="linop", shape=list(s), axes=None if ax is None else list(ax), center=cen))
     return cases
